@@ -296,6 +296,16 @@ func (s *njSess) post(id int, obj map[string]interface{}, user string, replace b
 		s.c.Count("post-refused")
 		return
 	}
+	for _, f := range cond {
+		if ov, stored := before[f]; stored {
+			if nv, given := obj[f]; given && nv != nil && canonAny(nv) != canonAny(ov) {
+				s.c.Count("post: conditional on a stored field with another value")
+				if bu, _ := before[f+"_user"].(string); bu != user {
+					s.c.Count("post: conditional on a stored field with another value, by another user")
+				}
+			}
+		}
+	}
 	after, ok := s.getObj(s.head, id, "all")
 	if !ok {
 		s.c.Report("O", "C16 post-lost", "a stored annotation cannot be read back", s.history())
@@ -334,6 +344,26 @@ func (s *njSess) post(id int, obj map[string]interface{}, user string, replace b
 					s.c.Report("O", "C16 partial-update-lost-field", "a partial update changed or dropped a field it does not mention",
 						fmt.Sprintf("field %q before %s after %s\n%s", f, canonAny(ov), canonAny(after[f]), s.history()))
 				}
+			}
+		}
+	}
+	// stamps change only when the value changes: a field whose value is what it was keeps its _user (and _time)
+	// unless the request sets them explicitly
+	for f, ov := range before {
+		if f == "bodyid" || strings.HasSuffix(f, "_user") || strings.HasSuffix(f, "_time") {
+			continue
+		}
+		av, still := after[f]
+		if !still || canonAny(av) != canonAny(ov) {
+			continue
+		}
+		for _, suf := range []string{"_user", "_time"} {
+			if _, explicit := reqObj[f+suf]; explicit {
+				continue
+			}
+			if bs, had := before[f+suf]; had && canonAny(after[f+suf]) != canonAny(bs) && !replace {
+				s.c.Report("O", "C16 stamp-changed-without-value-change", "a field whose value did not change got a new "+suf+" stamp",
+					fmt.Sprintf("field %q = %s before and after; %s%s before %s after %s\n%s", f, canonAny(ov), f, suf, canonAny(bs), canonAny(after[f+suf]), s.history()))
 			}
 		}
 	}
@@ -377,6 +407,19 @@ func (s *njSess) genPost() {
 	var cond []string
 	if r.Chance(0.2) {
 		cond = append(cond, njFields[r.Intn(len(njFields))])
+	}
+	if r.Chance(0.25) {
+		// a conditional on a field this request carries (the stored value, if any, must win and keep its stamps)
+		var fs []string
+		for f, v := range obj {
+			if v != nil && !strings.HasSuffix(f, "_user") && !strings.HasSuffix(f, "_time") {
+				fs = append(fs, f)
+			}
+		}
+		sort.Strings(fs)
+		if len(fs) > 0 {
+			cond = append(cond, fs[r.Intn(len(fs))])
+		}
 	}
 	s.post(id, obj, njUsers[r.Intn(2)], r.Chance(0.2), cond)
 }
@@ -474,6 +517,20 @@ func runC16(c *Ctx) {
 		if canonAny(d["type_time"]) == canonAny(b["type_time"]) {
 			c.Report("O", "C16 stamp-not-updated", "a changed field kept its old time stamp", hist+canonAny(d))
 		}
-		c.Eval("stamps "+canonAny(maskTimes(d)), true)
+		// a conditional field that is already stored keeps its value — and therefore its stamps
+		time.Sleep(1100 * time.Millisecond)
+		post("?u=bob&conditionals=status,newf", `{"bodyid":5,"status":"Other","newf":"n1"}`)
+		e := get()
+		hist += "1.1 s later POST key/5?u=bob&conditionals=status,newf {status:Other,newf:n1}\n"
+		if canonAny(e["status"]) != canonAny(d["status"]) {
+			c.Report("O", "C16 conditional-overwrote-value", "a conditional field that was already stored was overwritten", hist+canonAny(e))
+		} else if canonAny(e["status_time"]) != canonAny(d["status_time"]) || canonAny(e["status_user"]) != canonAny(d["status_user"]) {
+			c.Report("O", "C16 stamp-changed-without-value-change", "a conditional field kept its stored value but got a new user/time stamp",
+				fmt.Sprintf("%sstatus: before %v/%v after %v/%v\n", hist, d["status_user"], d["status_time"], e["status_user"], e["status_time"]))
+		}
+		if canonAny(e["newf"]) != `"n1"` || canonAny(e["newf_user"]) != `"bob"` {
+			c.Report("O", "C16 conditional-new-field", "a conditional field that was not stored yet was not set with the caller's stamp", hist+canonAny(e))
+		}
+		c.Eval("stamps "+canonAny(maskTimes(e)), true)
 	}()
 }
